@@ -102,26 +102,30 @@ def rand_edit(rng, st, kinds=('mv', 'ma', 'md')):
 
 def gen_e2e_push(rng):
     """a permanently offline (webhook-only) slave: every edit is pending until the slave sends an event; provisioning is scheduled
-    1 s after each event.  One pending item (several are pushed more than once by the current code when the slave is slow: the
-    provisioning requests make the device send events that re-enter _provision_and_update, notes/C13.md), then two events within
-    a second from a slave that is slower than the gap"""
+    1 s after each event.  1-4 pending items (the provisioning requests make the device send events that schedule
+    _provision_and_update again while it is running: corpus/C13/webhook-only-slave-provisioning-reentered-by-its-own-events.json),
+    then two events within a second from a slave that is slower than the gap"""
     st = c12.SimState(rng, rng.randint(1, 3))
     job = {'kind': 'e2e', 'mode': 'push', 'poll': 1, 'flags': ['listen'], 'lat': [rng.choice([300, 500, 800])],
            'ports': [copy.deepcopy(p) for p in st.ports.values()], 'ops': []}
     ops = job['ops']
     e = None
-    for _ in range(10):
-        e = rand_edit(rng, st)
-        if e and (e[0] != 'ma' or len(e[2]) == 1) and not (e[0] == 'ma' and 'tag' in e[2]):
-            break
-    ops.append([1000] + (e or ['md', {'display_name': 'User Dev'}]))
+    pend = set()
+    for k in range(rng.randint(1, 4)):       # several pending items: device attribute, port attributes, values
+        e = rand_edit(rng, st) if k == 0 else fresh_edit(rng, st, pend)
+        if e:
+            ops.append([1000 if k == 0 else rng.choice([0, 100, 500])] + e)
+            pend |= edit_keys(e)
+    if not ops:
+        e = ['md', {'display_name': 'User Dev'}]
+        ops.append([1000] + e)
     ids = [i for i, p in st.ports.items() if p['enabled']]
     if ids:
         pid = rng.choice(ids)
         typ = st.ports[pid]['type']
         v1 = c12.rand_value(rng, typ)
         ops.append([rng.choice([500, 2000]), 'sv', pid, (not st.ports[pid]['value']) if typ == 'boolean' else (st.ports[pid]['value'] + 1) % 100])
-        ops.append([rng.choice([100, 300, 600]), 'sd', 'display_name', 'D%d' % rng.randint(0, 99)] if e and e[0] != 'md'
+        ops.append([rng.choice([100, 300, 600]), 'sd', 'note2', 'D%d' % rng.randint(0, 99)] if rng.random() < 0.5
                    else [rng.choice([100, 300, 600]), 'sv', pid, (st.ports[pid]['value'] + 7) % 100 if typ != 'boolean' else st.ports[pid]['value']])
     else:
         ops.append([500, 'sd', 'location', 'X'])
@@ -825,13 +829,19 @@ def run_e2e_batch(ctx, res, jobs, label, tags, max_reports=4):
             continue
         reported.add(tag)
 
+        def nreq(p):         # how many requests about the item reached the slave: none / one (wrong value) / several
+            n = len((p.get('detail') or {}).get('requests_about_it') or []) if p['kind'] == 'pushed-once' else -1
+            return min(n, 2)
+
         def still(js, p0=p0):
             rs = c12.run_worker(js)
-            return [any(p['kind'] == p0['kind'] and p.get('item') == p0.get('item') for p in e2e_problems(jj, rr))
+            return [any(p['kind'] == p0['kind'] and p.get('item') == p0.get('item') and nreq(p) == nreq(p0)
+                        for p in e2e_problems(jj, rr))
                     if 'syncs' in rr else False for jj, rr in zip(js, rs)]
         small = c12.shrink_e2e(job, still)
         rr = c12.run_worker([small])[0]
-        probs = [p for p in e2e_problems(small, rr) if p['kind'] == p0['kind'] and p.get('item') == p0.get('item')] or [p0]
+        probs = [p for p in e2e_problems(small, rr) if p['kind'] == p0['kind'] and p.get('item') == p0.get('item')
+                 and nreq(p) == nreq(p0)] or [p0]
         p1 = probs[0]
         eps = episodes(small, rr) if 'syncs' in rr else []
         key = {'kind': p1['kind'], 'item': p1.get('item'), 'mode': small['mode']}
